@@ -547,7 +547,7 @@ fn case_strategy() -> impl Strategy<Value = Case> {
 pub fn check(ctx: &Ctx) -> Vec<PartReport> {
     let ku = ctx.known.is_known("C10", KF_URL_NAMES);
     let kt = ctx.known.is_known("C10", KF_THRESHOLD_ABOVE_KEYS);
-    let n = ctx.cases(3_000, 40_000);
+    let n = ctx.cases(8_000, 60_000);
     vec![run_part(
         ctx,
         PartSpec {
